@@ -66,7 +66,7 @@ CONTAINER_KINDS = SINGLE_KINDS + MULTI_KINDS
 CONSOLE_KINDS = ("utf8", "ascii", "legacy")
 
 # leaf strings, most width-relevant first (a tier takes a prefix)
-TEXTS = ["ab cd", "\u3042\u3044", "a\nbb c", "a\u3042 b", "abcdefgh", "a", "e\u0301x", "", "\u3042\u3042\u3042\u3042",
+TEXTS = ["ab cd", "\u3042\u3044", "a\nbb c", "a\u3042 b", "abcdefgh", "", "a", "e\u0301x", "\u3042\u3042\u3042\u3042",
          " lead", "tab\tx"]
 HEADERS = ["h", "hd x", "\u3042h", "h4"]
 FOOTERS = ["f", "\u3042", "f g", "f4"]
@@ -496,12 +496,12 @@ def families(tier, seed=0, include_fixed=False):
     base trees (skeletons or chains) x every choice of exactly `dev` deviations (`dev` is a list of
     deviation counts) with the first `alts` alternatives per option.
 
-    quick     D1: depth<=1, <=2 kids, 5 texts + rule/pbar/bar, 0..1 deviations, 2 alternatives/option
+    quick     D1: depth<=1, <=2 kids, 6 texts + rule/pbar/bar, 0..1 deviations, 2 alternatives/option
               D1x2: depth<=1, <=2 kids, 3 texts + rule/pbar, exactly 2 deviations, 1 alternative/option
               D2: depth 2, <=2 kids, 2 texts (+ rule/pbar/bar directly under the root), default options
               D2x1: depth 2 with a single-kid root over 2 texts, exactly 1 deviation, 1 alternative
               CH3 / CH4: all 9^3 (3 leaves) / 9^4 (2 leaves) single-kid chains, default options
-              ROT: rotating slice (seed mod 6): D1 with 0..2 deviations over one further leaf string
+              ROT: rotating slice (seed mod 5): D1 with 0..2 deviations over one further leaf string
     thorough  D1: depth<=1, <=3 kids, all 11 texts + rule/pbar/bar, default options
               D1x1 / D1x2 / D1x3: depth<=1, <=2 kids, exactly 1 / 2 / 3 deviations over 11 / 5 / 2 texts
                     (+ rule/pbar/bar for 1 and 2) with all / 2 / 1 alternatives per option
@@ -515,7 +515,7 @@ def families(tier, seed=0, include_fixed=False):
     fx = bool(include_fixed)
     F = []
     if tier == "quick":
-        F.append(_fam("D1", base="skel", depth=1, kids=2, texts=5, others=True, dev=[0, 1], alts=2, fixed=fx))
+        F.append(_fam("D1", base="skel", depth=1, kids=2, texts=6, others=True, dev=[0, 1], alts=2, fixed=fx))
         F.append(_fam("D1x2", base="skel", depth=1, kids=2, texts=3, others=2, dev=[2], alts=1, fixed=fx))
         F.append(_fam("D2", base="skel", depth=2, kids=2, texts=2, others=True, inner_texts=2, inner_others=False,
                       exact=True, dev=[0], alts=1, fixed=fx))
@@ -523,8 +523,8 @@ def families(tier, seed=0, include_fixed=False):
                       fixed=fx))
         F.append(_fam("CH3", base="chain", length=3, texts=3, dev=[0], alts=1, fixed=fx))
         F.append(_fam("CH4", base="chain", length=4, texts=2, dev=[0], alts=1, fixed=fx))
-        r = seed % 6
-        F.append(_fam("ROT%d" % r, base="skel", depth=1, kids=2, text_list=[TEXTS[5 + r]], others=False,
+        r = seed % 5
+        F.append(_fam("ROT%d" % r, base="skel", depth=1, kids=2, text_list=[TEXTS[6 + r]], others=False,
                       dev=[0, 1, 2], alts=1, fixed=fx))
     else:
         F.append(_fam("D1", base="skel", depth=1, kids=3, texts=11, others=True, dev=[0], alts=None, fixed=fx))
